@@ -150,6 +150,15 @@ fn run_history(
     let depth4 = rng.chance(1, 2);
     let boundary = if idx < 4 { Some(idx) }
         else if rng.chance(1, 3) { Some(rng.below(4)) } else { None };
+    // the scripts about aggregated ROAs (threshold crossing, partial removal
+    // and partial loss of an aggregated ASN's prefixes) are about the
+    // aggregating configurations: the pinned runs use (3,2), later ones any
+    // configuration that aggregates at these sizes
+    let agg = match boundary {
+        Some(0) | Some(1) if idx < 4 => (3, 2),
+        Some(0) | Some(1) if agg.0 > 10 => CONFIGS[(seed % 3) as usize],
+        _ => agg,
+    };
     let n_random = if args.thorough() { rng.range(25, 60) }
         else { rng.range(12, 25) };
 
